@@ -12,13 +12,41 @@ Qed.
 
 Theorem sifting_ok'_holds : sifting_ok'.
 Proof.
-  intros s L r s' HI HC Hll Hrun. cbn [reorder] in Hrun.
-  destruct (apply_sifting_spec s L r s' HI HC Hll Hrun)
-    as [?|(?&(?&?&?)&_&Hr&Hd&Hk&_)]; [by left|right].
-  split_and!; try done.
-  - by injection Hr.
-  - by apply keepsH_keeps.
+  intros s L r s' HI HC Hll Hrun.
+  pose proof (nft_reorder None s r s') as Hnft.
+  cbn [reorder] in Hrun.
+  destruct (apply_sifting_safe s L r s' ltac:(by split_and!) Hrun)
+    as [?|(((HI'&HC'&Hll')&_&Hk&_)&Hd&Hr)]; [by left|].
+  destruct (apply_sifting_spec s L r s' HI HC Hll Hrun) as [?|[->|(->&_)]]; [by left|right..].
+  - split_and!; try done.
+    + right. split; [done|]. destruct (max_nodes s) eqn:E; [by eexists|].
+      by destruct (Hnft eq_refl Hrun) as [_ ?].
+    + unfold rr in Hr. congruence.
+    + by apply rr_max_nodes.
+    + by apply keepsH_keeps.
+  - split_and!; try done.
+    + by left.
+    + unfold rr in Hr. congruence.
+    + by apply rr_max_nodes.
+    + by apply keepsH_keeps.
 Qed.
+
+(** ** with an unbounded table there is no full-table error *)
+Lemma nft_guarded {A} (m : MS A) : nft m → nft (guarded m).
+Proof.
+  intros Hm s r s' Ht Hrun.
+  apply guarded_run in Hrun as [[_ Hrun]|(ll&s1&_&Hrun&->)].
+  - by apply (Hm s).
+  - set (s0 := s <| last_len := None |>) in *.
+    assert (max_nodes s0 = None) as Ht0 by done.
+    destruct (Hm s0 r s1 Ht0 Hrun) as [? ?]. done.
+Qed.
+Lemma nft_reorder_pub o : nft (reorder_pub o).
+Proof. apply nft_guarded, nft_reorder. Qed.
+Lemma nft_swap_pub x y : nft (swap_pub x y).
+Proof. apply nft_guarded, nft_swap. Qed.
+Lemma nft_reorder_to_pairs_pub p : nft (reorder_to_pairs_pub p).
+Proof. apply nft_guarded, nft_reorder_to_pairs. Qed.
 
 (** ** with an empty tape there is no oracle error *)
 Lemma nt_guarded {A} (m : MS A) : nt m → nt (guarded m).
@@ -67,7 +95,7 @@ Qed.
 
 (** ** [reorder(order)] succeeds (shape of the premise of the JSON loader) *)
 Theorem reorder_order_ok order s L :
-  Inv s → Counts s L → last_len s = None → tape s = [] →
+  Inv s → Counts s L → last_len s = None → tape s = [] → max_nodes s = None →
   dom order = dom (vars s) →
   (∀ v v' l, order !! v = Some l → order !! v' = Some l → v = v') →
   (∀ v l, order !! v = Some l → l < nvars s) →
@@ -76,24 +104,26 @@ Theorem reorder_order_ok order s L :
     Inv s' ∧ vars s' = order ∧ last_len s' = None ∧ Counts s' L ∧ keepsH L s s' ∧
     rr s' = rr s ∧ tape s' = [].
 Proof.
-  intros HI HC Hll Ht Hd Hinj Hb Hroots.
+  intros HI HC Hll Ht Hmx Hd Hinj Hb Hroots.
   destruct (reorder (Some order) s) as [r s'] eqn:Hrun. exists s'.
   destruct (nt_reorder (Some order) s r s' Ht Hrun) as [Ht' Hne].
+  destruct (nft_reorder (Some order) s r s' Hmx Hrun) as [_ Hnf].
   cbn [reorder] in Hrun.
   destruct (sort_to_order_correct order s L r s' ltac:(by split_and!) Hd Hinj Hb Hroots Hrun)
-    as [?|(->&((?&?&?)&_&?&_)&?&?)]; [done|]. by split_and!.
+    as [?|[?|(->&((?&?&?)&_&?&_)&?&?)]]; [done|done|]. by split_and!.
 Qed.
 
 (** sifting with an empty tape succeeds *)
 Theorem sifting_ok_notape s L :
-  Inv s → Counts s L → last_len s = None → tape s = [] →
+  Inv s → Counts s L → last_len s = None → tape s = [] → max_nodes s = None →
   ∃ s', reorder None s = (Ok tt, s') ∧ Inv s' ∧ Counts s' L ∧ last_len s' = None ∧
     nozero s' ∧ rr s' = rr s ∧ dom (vars s') = dom (vars s) ∧ keepsH L s s' ∧
     len s' ≤ len s ∧ tape s' = [].
 Proof.
-  intros HI HC Hll Ht.
+  intros HI HC Hll Ht Hmx.
   destruct (reorder None s) as [r s'] eqn:Hrun. exists s'.
-  destruct (nt_reorder None s r s' Ht Hrun) as [Ht' Hne]. cbn [reorder] in Hrun.
+  destruct (nt_reorder None s r s' Ht Hrun) as [Ht' Hne].
+  destruct (nft_reorder None s r s' Hmx Hrun) as [_ Hnf]. cbn [reorder] in Hrun.
   destruct (apply_sifting_spec s L r s' HI HC Hll Hrun)
-    as [?|(->&(?&?&?)&?&?&?&?&?)]; [done|]. by split_and!.
+    as [?|[?|(->&(?&?&?)&?&?&?&?&?)]]; [done|done|]. by split_and!.
 Qed.
